@@ -212,6 +212,7 @@ def run(repo, rep, tier):
     for fi, p, n, what in gh:
         rep.finding("R16.3", fi, n, f"{what}: the memo `{p}` is a mutable default shared by every traversal in the process: nodes remembered from "
                     f"an earlier (rejected) fill make later legal trees fail with 'same aggregator twice'", stmt=f"shared memo {p}")
+    walk_order_and_entries(repo, rep, cont)
     # R16.3
     f = repo.own_method(cont, GUARD)
     rep.analysed_functions.add(f.construct)
@@ -265,6 +266,61 @@ def run(repo, rep, tier):
                 f"traversal returns immediately, so an aggregator installed at two positions is filled twice, undetected",
                 path=f"{f.qualname}: visit #2 of the same node -> `{norm(tn.stmt)}` is False -> return",
             )
+
+
+def walk_order_and_entries(repo, rep, cont):
+    """R16.4: the once-only flag is stored only after the children have been walked (a node whose walk is still in progress
+    must look unvisited, or a node that is its own descendant returns silently instead of raising).
+    R16.5: `_numpy` of a tree is entered only behind the walk: outside the `_numpy` methods themselves, every reference to
+    `<x>._numpy` sits in a function where a call of the walk dominates it."""
+    r4 = rep.rule("R16.4", "the once-only flag of the walk is stored after the recursion into the children, never before", floor=1)
+    f = repo.own_method(cont, GUARD)
+    g = cfgmod.build(f.node)
+    selfname = f.params[0]
+    tested = set()
+    for n in g.nodes:
+        if n.kind == "test":
+            tested |= {a.attr for a in ast.walk(n.ast) if isinstance(a, ast.Attribute) and isinstance(a.value, ast.Name) and a.value.id == selfname}
+    stores = [n for n in g.nodes if n.kind == "stmt" and isinstance(n.ast, ast.Assign) and any(
+        isinstance(t, ast.Attribute) and isinstance(t.value, ast.Name) and t.value.id == selfname and t.attr in tested for t in n.ast.targets)]
+    rec = [n for n in g.nodes if any(e is not None and any(isinstance(s, ast.Call) and isinstance(s.func, ast.Attribute) and s.func.attr == GUARD
+                                                             for s in ast.walk(e)) for e in header_exprs(n))]
+    for st in stores:
+        seen, work = set(), [s for _, s in st.succ]
+        while work:
+            x = work.pop()
+            if x in seen:
+                continue
+            seen.add(x)
+            work += [s for _, s in g.nodes[x].succ]
+        later = [r for r in rec if r.id in seen]
+        r4.ob(not later, f"{f.qualname}: `{norm(st.stmt)}` is not followed by the recursion")
+        if later:
+            rep.finding("R16.4", f, st.stmt, f"`{norm(st.stmt)}` marks the node as checked BEFORE its children are walked (the recursion at line "
+                        f"{later[0].lineno} comes after it): when the walk comes back to this node through a descendant, the flag test returns "
+                        f"silently instead of reaching the identity test, so a node that is its own descendant is no longer rejected",
+                        stmt="flag stored before the recursion")
+    if not stores:
+        r4.ob(True, "no once-only flag in the walk")
+    r5 = rep.rule("R16.5", "outside the _numpy methods, every use of `<x>._numpy` is dominated by a call of the cross-reference walk", floor=1)
+    for fn in repo.all_functions():
+        if fn.name == "_numpy" or not fn.module.name.startswith("histogrammar") or ".dfinterface" in fn.module.name:
+            continue
+        uses = [n for n in ast.walk(fn.node) if isinstance(n, ast.Attribute) and n.attr == "_numpy" and isinstance(n.ctx, ast.Load)]
+        if not uses:
+            continue
+        g2 = cfgmod.build(fn.node)
+        dom = g2.dominators()
+        guards = [n for n in g2.nodes if n.id in dom and any(e is not None and any(
+            isinstance(s, ast.Call) and isinstance(s.func, ast.Attribute) and s.func.attr == GUARD for s in ast.walk(e)) for e in header_exprs(n))]
+        for u in uses:
+            holder = [n for n in g2.nodes if n.id in dom and any(e is not None and any(x is u for x in ast.walk(e)) for e in header_exprs(n))]
+            ok = bool(holder) and all(any(gd.id in dom[h.id] and gd.id != h.id for gd in guards) for h in holder)
+            r5.ob(ok, f"{fn.qualname}: `{ast.unparse(u)}` behind the walk")
+            if not ok:
+                rep.finding("R16.5", fn, u, f"{fn.qualname} reaches `{ast.unparse(u)}` without calling {GUARD}() first: this entry point fills a "
+                            f"tree vectorially without the shared-node check, so an aggregator installed at two positions is filled twice "
+                            f"(or the walk's RecursionError surfaces after state has changed)", stmt=f"unguarded entry to _numpy: {fn.qualname}")
 
 
 def cfgmod_reaches_raise(g, start):
